@@ -220,9 +220,9 @@ func c07(c *core.Ctx) {
 	c.Budget(90*time.Second, 12*time.Minute)
 	c.SetRule("scenarios: R1; Tflush(R1) (or of an unused tag); after the flush's reply was read, R2 reusing R1's tag (or another); handlers ignoring / racing / blocking on cancellation; every interleaving of the real ServeConn goroutines incl. every ready select case, up to the preemption bound; outcome = order of replies seen by the client + whether R1's context was done at the acknowledgement")
 	c.Assume("scheduling points at channel, select, mutex, once, sync.Map, context-cancel and conn operations; sequentially consistent interleavings only")
-	maxP := 2
-	if !c.Quick() {
-		maxP = 4
+	if c.Quick() {
+		runPlans(c, both(c07Scenarios(), 2, 4, 0))
+	} else {
+		runPlans(c, both(c07Scenarios(), 4, 7, 0))
 	}
-	runScenarios(c, c07Scenarios(), maxP, 0)
 }
